@@ -6,6 +6,30 @@ COMMON_TRUST = [
 ]
 CODEC_RULE = "every message type x decoding parameter (Prio3 Count/Sum/Histogram/SumVec with 2-5 aggregators, Poplar1 with several bit lengths incl. 0, Prio2, ping-pong, primitives): honest encodings from real protocol runs, truncations, extensions, single-byte mutations, every alphabet value in first/last byte, all strings of length <= 2-3 over {00,01,7f,80,fe,ff}, header extremes (level 0xFFFF, counts 2^32-1, unknown tags), random strings; non-trivial = every case (each is a decode of a distinct byte string);"
 PROPS = {
+    "C01": {
+        "modules": ["PrioProofs.Props.C01"],
+        "rule": "Prio3 over a recording XOF (every XOF invocation's key and output is recorded and the model recomputes the whole step from that table): Count, Sum at bit-width edges (incl. a 34-bit bound), Histogram with dividing / non-dividing / oversize chunks, SumVec, MultihotCountVec, L1BoundSum x (aggregators, proofs) in {(2,1),(3,1),(5,2),(2,3)}; every message passes through its wire codec; batches of 5 (thorough 24) valid measurements incl. the extremes, sharded, verified by all aggregators, aggregated and unsharded; non-trivial = all;",
+        "trusted": COMMON_TRUST + ["TurboSHAKE128 is a parameter of the model (recorded table in the correspondence)"],
+        "assumptions": ["Average's final float division is outside the model (the integer sum and count are compared)"],
+    },
+    "C02": {
+        "modules": ["PrioProofs.Props.C02"],
+        "rule": "Prio3 over a recording XOF (every XOF invocation's key and output is recorded and the model recomputes the whole step from that table): Count, Sum at bit-width edges (incl. a 34-bit bound), Histogram with dividing / non-dividing / oversize chunks, SumVec, MultihotCountVec, L1BoundSum x (aggregators, proofs) in {(2,1),(3,1),(5,2),(2,3)}; every message passes through its wire codec; alterations of every public-share seed, first/middle/last measurement and proof elements of the leader share, blinds, helper seeds, every aggregator's first/last verifier element and joint-randomness part, the verifier message, a missing and a duplicated share; model and code must agree on the step that fails; non-trivial = all;",
+        "trusted": COMMON_TRUST + ["TurboSHAKE128 is a parameter of the model (recorded table in the correspondence)"],
+        "assumptions": ["the negligible-probability clause (random-oracle collisions, FLP soundness error) is not expressed; the oracle samples it"],
+    },
+    "C17": {
+        "modules": ["PrioProofs.Props.C17"],
+        "rule": "Prio3 over a recording XOF (every XOF invocation's key and output is recorded and the model recomputes the whole step from that table): Count, Sum at bit-width edges (incl. a 34-bit bound), Histogram with dividing / non-dividing / oversize chunks, SumVec, MultihotCountVec, L1BoundSum x (aggregators, proofs) in {(2,1),(3,1),(5,2),(2,3)}; every message passes through its wire codec; pairs of measurements sharded with identical randomness and nonce; byte-wise comparison of helper shares, blinds, joint-randomness parts and the leader-share difference; non-trivial = all;",
+        "trusted": COMMON_TRUST,
+        "assumptions": ["the Poplar1 half of the property is checked by the Poplar1 oracle (see C03)"],
+    },
+    "C18": {
+        "modules": ["PrioProofs.Props.C18"],
+        "rule": "Prio3 over a recording XOF (every XOF invocation's key and output is recorded and the model recomputes the whole step from that table): Count, Sum at bit-width edges (incl. a 34-bit bound), Histogram with dividing / non-dividing / oversize chunks, SumVec, MultihotCountVec, L1BoundSum x (aggregators, proofs) in {(2,1),(3,1),(5,2),(2,3)}; every message passes through its wire codec; every single-aggregator and all-aggregator substitution of context, nonce and verification key, swapped helper shares and identifiers, another algorithm identifier; non-trivial = all;",
+        "trusted": COMMON_TRUST + ["rejection under a mismatch relies on the XOF behaving as a random oracle: the theorems show that every mismatched quantity enters a tag or binder injectively and that the nonce exception is exact; the correspondence and oracle check the outcomes"],
+        "assumptions": [],
+    },
     "C05": {
         "modules": ["PrioProofs.Props.C05"],
         "rule": "all circuits (Count, Sum/Average at bit-width edges, Histogram with dividing / non-dividing / oversize chunk lengths, SumVec, MultihotCountVec, L1BoundSum) x valid encodings and invalid vectors (non-bits, wrong weight, inconsistent norm, affine-only near-misses) x randomness (uniform, zeros, ones, repeats, roots of unity of the wire domain) x 1,2,3,5 shares with random and degenerate sharings x every wrong length; byte-exact proofs, verifier messages and decisions; non-trivial = all;",
